@@ -4,7 +4,7 @@ byte reader, by a comparison with the buffer length - BEFORE it sizes an allocat
 container construction).  Function-local, ordered by statement position; values of 8/16 bits used linearly are bounded by their
 type (at most 65535 elements)."""
 import re
-from astu import C, ctxt, gt_pair, eq_const, strip, strip_all, walk, txt, short, functions_by, local_decls, always_throws, stmts_of
+from astu import C, ctxt, gt_pair, eq_const, reach, reach_txt, ctext, strip, strip_all, walk, txt, short, functions_by, local_decls, always_throws, stmts_of
 from vlib.core import ob
 
 READERS = ("deserialize", "deserialize_items", "deserialize_array", "deserialize_compat", "newList", "newSet", "newHll", "internal_deserialize_or_wrap",
